@@ -301,27 +301,37 @@ class C10(Check):
     design_ref = '6/C10'
     level_category = 'proof'
     level_text = ('Lean theorem multi_app_noninterference over the step model of ts_props (one store per instance, looked '
-                  'up through the instance): for every sequence of operations of any number of applications and threads '
-                  '(serving, Request.copy(), construction, nested calls) the reads of an application equal those of the '
-                  'run with all other applications\' operations deleted; the pre-fix decorator (one closure cell per '
-                  'class) is a model variant shown to violate it. Tied to the code by arrangements of 2-3 real '
-                  'applications incl. the default app, single-threaded and under the baton scheduler. Proof of the model '
-                  '+ schedule-controlled correspondence; partial for thread switches inside one source line.')
+                  'up through the instance) and of the objects all applications share (errors_map): from any heap in which '
+                  'dict references stay inside their application, for every sequence of operations of any number of '
+                  'applications and threads (serving, Request.copy(), construction, nested calls) that does not write a '
+                  'shared error object, the reads of an application equal those of the run with all other applications\' '
+                  'operations deleted; the pre-fix decorator (one closure cell per class) is a model variant shown to '
+                  'violate it. Tied to the code by arrangements of 2-3 real applications incl. the default app, '
+                  'single-threaded and under the baton scheduler. Proof of the model + schedule-controlled '
+                  'correspondence; partial for thread switches inside one source line.')
     level_note_extra = ('partial: sub-line thread switches are not exercised; object identity is modelled by names '
-                        '(thread, app, serial), only freshness of new objects is used.')
+                        '(thread, app, serial), only freshness of new objects is used; aliasing of a shared error\'s '
+                        'cookie jar into a response is not modelled (no error object of the tree has cookies: generated table).')
     technique = 'Lean 4 proof + schedule-controlled differential correspondence'
     anchors = ['ombott/common_helpers.py', 'ombott/response.py', 'ombott/request_pkg/request.py', 'ombott/ombott.py']
-    rule = ('arrangements of 2-3 applications incl. the module-level default app: alternating requests, nested calls '
-            '(depth 1-2), Request.copy() + edits of the copy inside a handler, Ombott() constructed inside a handler or '
-            'on another thread; single thread, and 2-3 threads under the baton scheduler with every single preemption '
-            'point of thread 1 plus random multi-preemption schedules; non-trivial = more than one application takes part')
+    rule = ('arrangements of 2-3 applications incl. the module-level default app, each with its own configuration '
+            '(debug pages, custom error handlers, hooks): alternating requests, nested calls (depth 1-2), '
+            'Request.copy() + edits of the copy (PATH_INFO, QUERY_STRING, HTTP_*, cookies) inside a handler and down a '
+            'nested chain with header views read before and after, Ombott() constructed inside a handler or on another '
+            'thread, several applications failing onto the same shared errors_map object (alternating, nested, '
+            'cross-thread, default app); single thread, and 2-3 threads under the baton scheduler with every single '
+            'preemption point of thread 1 plus random multi-preemption schedules; every application is compared with '
+            'the run in which the others\' operations (and its own copies) are deleted, computed in a forked child of '
+            'the untouched process; non-trivial = more than one application takes part')
     assumptions = ['thread switches happen at source-line boundaries inside ombott/* and the handlers',
                    'an application is not re-entered by a nested call to itself',
                    'handlers reach request and response state only through app.request / app.response (or the module '
                    'level aliases of the default application)',
                    'a copy made by a handler is used by that handler\'s thread only',
-                   'router answer, parsed values, status phrases and the error page template are data of the request in '
-                   'the model (properties C01, C02, C15, C18, C20)']
+                   'no code writes the shared HTTPError objects of errors_map (tied: generated table + probe; hypothesis '
+                   'sharedOk of the theorem)',
+                   'router answer, parsed values, status phrases and the error page templates are data of the request in '
+                   'the model (properties C01, C02, C04-C07, C15, C18, C20)']
 
     def __init__(self):
         self.stats = {}
